@@ -295,6 +295,18 @@ func (x *Exec) enterLoop(fr *frame, li *loopInfo, s *State) *State {
 			n.Cells[a] = x.freshValue(n, a.Comment, old.T)
 		}
 	}
+	// map iterators advanced in the body: the set of keys produced so far is loop state
+	for b := range li.body {
+		for _, in := range b.Instrs {
+			if nx, ok := in.(*ssa.Next); ok && !nx.IsString {
+				if it, ok := nx.Iter.(*ssa.Range); ok {
+					if cur, tracked := n.Iter[it]; tracked {
+						n.Iter[it] = x.C.Fresh("iterseen", cur.Sort)
+					}
+				}
+			}
+		}
+	}
 	// ghost counters: pin the ones the body cannot bump, forget the ones it can
 	if em := x.E.ghostEmitters(); len(em) > 0 {
 		if x.E.callees == nil {
